@@ -183,4 +183,17 @@ PROPS = {
   "level_note": "Trusted as C04; registry model abstracts the poller goroutine as 'one poll per period and gauge while started' (synctest virtual clock); the dogstatsd client and go-metrics are outside the model.",
   "technique": "Coq case-analysis theorems + differential replay of emissions and poll counts",
  },
+ "C17": {
+  "tests": ["TestC17"],
+  "race": True,
+  "traces": False,
+  "rule": "static: tools/lockscan regenerates the access table (every exported method of limit, strategy, limiter, measurements, metric_registry, core, patterns; same-module callees inlined under the "
+          "caller's lock set; shared references re-rooted) and Coq re-checks the discipline over all pairs of accesses; dynamic: goroutines hammer method mixes on shared instances of every type under "
+          "the Go race detector; non-trivial = a stress scenario (one per shared instance kind); evaluations = method calls made",
+  "level_text": "C17_lockset_sound is a generic theorem (any table, any number of threads, any schedule, RW-mutex semantics); C17_discipline is re-proved on every run for the table generated from the "
+                "current source, giving C17_race_free for the summarised program. PARTIAL: the scanner is unverified (interface calls are not followed across objects, closures are analysed at "
+                "creation with no lock held, sharing annotations are a fixed list); 'never crashes the runtime' is covered as unsynchronised map access being a flagged conflict.",
+  "level_note": "Trusted: tools/lockscan (go/packages, go/types), its two annotation lists, Go's memory model as 'conflicting non-atomic accesses need a common lock'; cross-checked dynamically by -race.",
+  "technique": "Coq generic lock-set theorem + per-run discipline obligation over a table translated from the source + race-detector stress",
+ },
 }
